@@ -1,5 +1,6 @@
 \* C14, thorough tier, emission.  Symbolic machine integers: MAX = 2*H+1 = [2,1]  (Go: H = 2^62-1, MAX = math.MaxInt).
 \* All operations with <= 4 selection nodes x {no custom cost, one slot, two slots, all slots uniform}.
+\* Measured: 672,721 distinct states, 335,451 printed cases; 1 worker ~2 min.
 CONSTANTS
   MaxH = 2
   MaxD = 1
